@@ -1049,8 +1049,8 @@ func provenance(p *Prog, v ssa.Value, depth int, seen map[ssa.Value]bool) []prov
 			if fa, ok := x.X.(*ssa.FieldAddr); ok {
 				tn, f, _ := fieldOf(fa)
 				switch {
-				case f == "targetDir" && tn != "config":
-					return []provLeaf{{"targetDir", tn + ".targetDir"}}
+				case tn != "config" && (f == "targetDir" || targetDirFields(p)[tn+"."+f]):
+					return []provLeaf{{"targetDir", tn + "." + f}}
 				case tn == "Node" && f == "name":
 					return []provLeaf{{"node.name", "Node.name"}}
 				case tn == "config":
@@ -1212,10 +1212,10 @@ func ruleEFF5(w *World) []Ob {
 				return
 			}
 			tn, f, _ := fieldOf(fa)
-			if f != "targetDir" || tn == "config" {
+			if tn == "config" || !(f == "targetDir" || targetDirFields(p)[tn+"."+f]) {
 				return
 			}
-			construct := "store to " + tn + ".targetDir"
+			construct := "store to " + tn + "." + f
 			var bad []string
 			fromCfg := false
 			for _, lf := range provenance(p, st.Val, 0, map[ssa.Value]bool{}) {
@@ -1223,6 +1223,8 @@ func ruleEFF5(w *World) []Ob {
 				case "const":
 				case "cfg." + tf:
 					fromCfg = true
+				case "targetDir":
+					fromCfg = true // copied from another target-directory field, which is judged where it is stored
 				default:
 					bad = append(bad, lf.desc)
 				}
@@ -1760,4 +1762,73 @@ func isExistencePredicate(fn *ssa.Function) bool {
 		ok = false
 	})
 	return ok && n > 0
+}
+
+// targetDirFields: struct fields (outside config) that hold the operation's target directory, by role: every value
+// stored into the field comes from the config field that WithTargetDir sets (directly, through constructor parameters,
+// or from another such field) or is a constant default.  The field named targetDir is always one.
+var targetDirFieldsCache = map[*Prog]map[string]bool{}
+
+func targetDirFields(p *Prog) map[string]bool {
+	if m, ok := targetDirFieldsCache[p]; ok {
+		return m
+	}
+	m := map[string]bool{}
+	targetDirFieldsCache[p] = m // (recursion through provenance sees the partial result)
+	tf := optionField(p, "WithTargetDir")
+	if tf == "" {
+		return m
+	}
+	type fstore struct {
+		key string
+		val ssa.Value
+	}
+	var stores []fstore
+	for _, fn := range libFuncs(p) {
+		allInstrs(fn, func(in ssa.Instruction) {
+			st, ok := in.(*ssa.Store)
+			if !ok {
+				return
+			}
+			fa, ok := st.Addr.(*ssa.FieldAddr)
+			if !ok {
+				return
+			}
+			if b, isB := st.Val.Type().Underlying().(*types.Basic); !isB || b.Info()&types.IsString == 0 {
+				return
+			}
+			tn, f, _ := fieldOf(fa)
+			if tn == "config" || tn == "Node" {
+				return
+			}
+			stores = append(stores, fstore{tn + "." + f, st.Val})
+		})
+	}
+	for round := 0; round < 3; round++ {
+		byKey := map[string][]ssa.Value{}
+		for _, s := range stores {
+			byKey[s.key] = append(byKey[s.key], s.val)
+		}
+		for k, vals := range byKey {
+			if m[k] {
+				continue
+			}
+			all, from := true, false
+			for _, v := range vals {
+				for _, lf := range provenance(p, v, 0, map[ssa.Value]bool{}) {
+					switch lf.kind {
+					case "const":
+					case "cfg." + tf, "targetDir":
+						from = true
+					default:
+						all = false
+					}
+				}
+			}
+			if all && from {
+				m[k] = true
+			}
+		}
+	}
+	return m
 }
